@@ -86,11 +86,21 @@ def check_hassemble(spec, ctx):
     # refines, assembles again): the final matrix is defined by the final space alone, so none of this may change it
     probe = list(spec.get("probe") or [])
     nsteps = len(spec["steps"])
-    state = {"k": 0, "used": 0}
+    state = {"k": 0, "used": 0, "prev": None, "used_prev": False, "quiet_refine_after_use": False}
 
     def on_step(hs_, ref_, info_):
         k = state["k"]
         state["k"] += 1
+        # class: a refinement that adds no level and deactivates no function but activates new ones, on a space that was
+        # used (caches populated) just before
+        Lr = ref_.trimmed_levels()
+        fa = [ref_.functions(l) for l in range(Lr)]
+        cur = (Lr, sum(len(d) for _, d in fa), sum(len(a) for a, _ in fa))
+        if state["prev"] is not None and state["used_prev"] and cur[0] == state["prev"][0] and cur[1] == state["prev"][1] \
+                and cur[2] > state["prev"][2]:
+            state["quiet_refine_after_use"] = True
+        state["prev"] = cur
+        state["used_prev"] = False
         bits = probe[k % len(probe)] if probe else 0
         if not bits or info_["calls"] == 0:
             return
@@ -103,6 +113,7 @@ def check_hassemble(spec, ctx):
             ctx.sut(hs_.dirichlet_dofs, what="dirichlet_dofs between refinements")
             ctx.sut(hs_.indices_to_smooth, what="indices_to_smooth between refinements")
         state["used"] += 1
+        state["used_prev"] = True
     hs, ref, info = gh.replay(spec, ctx, on_step=on_step if probe else None)
     if info["calls"] == 0:
         raise Skip("no effective refinement")
@@ -183,7 +194,8 @@ def check_hassemble(spec, ctx):
              "bdspecs_%s" % ("none" if spec["bdspecs"] is None else ("empty" if not spec["bdspecs"] else "faces")),
              "curved_geo" if spec["geo"]["amp"] > 0 else "affine_geo", "nurbs_geo" if spec["geo"]["nurbs"] else None,
              "symmetric_flag" if sym else None, "disparity_added_cells" if info["disparity_added"] else None,
-             "used_between_refinements" if state["used"] and info["calls"] >= 2 else None)
+             "used_between_refinements" if state["used"] and info["calls"] >= 2 else None,
+             "refine_without_deactivation_after_use" if state["quiet_refine_after_use"] else None)
     ctx.nontrivial = L >= 2 and interlevel
 
 
@@ -209,6 +221,26 @@ def strat_hassemble(draw, tier="quick"):
     spec["fseed"] = [draw(st.integers(-8, 8)) / 4.0 for _ in range(11)]
     spec["pvals"] = [draw(st.integers(-8, 8)) / 4.0 for _ in range(3)]
     spec["probe"] = [draw(st.sampled_from([0, 0, 1, 2, 3])) for _ in range(len(spec["steps"]))]
+    return spec
+
+
+@st.composite
+def strat_adaptive(draw, tier="quick"):
+    """Adaptive-loop histories: larger coarse meshes, several small refinement steps (1-2 cells each, any level), and the
+    space is used (assembled on, boundary dofs queried) after every step."""
+    spec = draw(gh.history(dims=(1, 1, 2), pmin=1, pmax=2, n0min=3, n0max=3 if tier == "quick" else 4, max_steps=5, max_levels=3,
+                           disparities=(None, None, 2), bdspecs_mode="any", containers=("set",), max_cells=2, region_steps=False,
+                           mult_prob=0.0))
+    if spec["dim"] == 2:
+        for k in spec["kvs"]:
+            k["p"] = 1
+    dim = spec["dim"]
+    spec["form"] = draw(st.sampled_from(["mass", "laplace", "mass"]))
+    spec["geo"] = draw(gg.geometry_map(dim, pmax=1, nmax=1, orient_preserving=True, nurbs=False))
+    spec["symmetric"] = draw(st.booleans())
+    spec["fseed"] = [draw(st.integers(-8, 8)) / 4.0 for _ in range(11)]
+    spec["pvals"] = [draw(st.integers(-8, 8)) / 4.0 for _ in range(3)]
+    spec["probe"] = [draw(st.sampled_from([1, 3, 3, 2])) for _ in range(len(spec["steps"]))]
     return spec
 
 
@@ -245,6 +277,10 @@ SUBCHECKS = [
         floor=10, timeout_q=900, timeout_t=7000, setup=setup, max_shrink_calls=30,
         rule="assemble(form, HSpace) vs level-wise definition R_i^T A_L R_j; THB congruence; symmetric flag; Galerkin projection for "
              "polynomial integrands"),
+    Sub("adaptive_loop", check_hassemble, strategy=lambda tier: strat_adaptive(tier), quick=256, thorough=4000, shards=8, isolate=True,
+        floor=10, timeout_q=900, timeout_t=7000, setup=setup, max_shrink_calls=30,
+        rule="adaptive-loop histories (up to 5 small refinement steps on larger coarse meshes) with the space assembled on and "
+             "queried after every step; the final matrix equals the level-wise definition for the final space"),
     Sub("enum_1d", check_hassemble, enum=enum_1d, quick=0, thorough=0, shards=16, isolate=True, floor=50, timeout_q=900, timeout_t=7000,
         setup=setup, rule="exhaustive: all 2-call refinement histories (3 levels) on 1D meshes with <= 3 (4) cells x p in {1,2} x "
                           "disparity {inf,2} x HB/THB, mass and Laplace forms"),
